@@ -62,9 +62,9 @@ def wf_jobs(prop, tier, rules=None, cell=(2024, 2), lift=True, timeout=None, ext
             spec["prescap"] = 48
         years = None
         if name in ARITH:
-            years = [2024] if tier == "quick" else [2023, 2024]
+            years = [2024]
             spec["years"] = years
-            spec["ym"] = [[2024, 2]] if tier == "quick" else [[2023, 2], [2024, 2]]
+            spec["ym"] = [[2024, 2]]
             spec["maxdur"] = 12 if tier == "quick" else 120
         npod = sum(str(a[1]).count("POD") for a in ob["args"])
         if npod >= 2:
@@ -132,7 +132,7 @@ def wf_jobs(prop, tier, rules=None, cell=(2024, 2), lift=True, timeout=None, ext
                 elif npod and tier == "quick":
                     spec["pods"] = qp
                 if k.count("year"):
-                    spec["ym"] = [[2024, 2], [2023, 2]] if tier == "quick" else [[2023, 2], [2023, 12], [2024, 2]]
+                    spec["ym"] = [[2024, 2], [2023, 2]]
                 env = {"VQ_PROP": prop, "VQ_SPEC": json.dumps(spec), "VQ_Y": str(cell[0]), "VQ_M": str(cell[1])}
                 jobs.append(Job("{}.WF[{}({})]".format(prop, pseudo, k), "vq.harness.h_wf", "ob_step", env=env, timeout=timeout or (600 if tier == "quick" else 1500),
                                 bounds="every value of shape {} inside WF{}; ts: every instant of {}-{:02d}".format(k, "; dated fields in cells %s" % spec["ym"] if "ym" in spec else "", cell[0], cell[1]),
